@@ -11,6 +11,20 @@ E2 = "stateless model checking: exhaustive DFS of the choice tree of RNG answers
 E3 = "explicit-state BFS over operation histories of the real object, reference-model comparison in every state"
 
 CHECKS = {
+    "C17": dict(
+        built=True,
+        category="exploration",
+        engine="E1+E4",
+        technique=E1 + "; all small cutting-stock instances (and covering column subsets in custom mode), exact optimum by dynamic "
+        "programming over remaining-demand vectors; fuel for termination",
+        text="All instances with roll width 3..8, 1-3 piece sizes in 1..W (equal sizes allowed) and demands in {0..3}^m for "
+        "solve_cg, widths 3..6 for solve_bp, and every covering subset of <=3 maximal patterns as initial columns with an exact "
+        "enumerating pricing function: every pattern fits, every demand is met, objective = rolls used >= true minimum, and "
+        "OPTIMAL only at the true minimum.",
+        note="Trusts: BFS over demand vectors with all feasible patterns. Exceptions in custom mode are not judged. Bound: W <= 8 "
+        "(10 thorough), demands <= 3.",
+        ref="2/C17",
+    ),
     "C05": dict(
         built=True,
         category="exploration",
